@@ -6,6 +6,7 @@ from annot import Work
 from stage_expr import consts_of, to_real
 unit, cfile = sys.argv[1], sys.argv[2]
 tag = sys.argv[3] if len(sys.argv) > 3 else 'C02'
+SKIP_HIGH_ROWS = len(sys.argv) > 4 and sys.argv[4] == 'skiprows'
 consts = consts_of(cfile)
 w = Work('/verif/work/%s.rs' % unit)
 L = w.L
@@ -60,7 +61,7 @@ while i < len(L):
                                 pre.append('%slet ghost %s = %s@;' % (ind, S, b2))
                             cur[b2] = S
                 written.append((buf, idx))
-                if buf == 'cont' and (rowmul(idx) or 0) >= 2:
+                if SKIP_HIGH_ROWS and buf == 'cont' and (rowmul(idx) or 0) >= 2:
                     continue      # higher dense rows: only the frame clause below (their formulas belong to C07)
                 rexpr = to_real(expr, consts, 'j', cur)
                 idxj = ' '.join('j' if t == 'i' else t for t in idx.split())
@@ -70,7 +71,7 @@ while i < len(L):
             for buf, S in snap.items():
                 rows = sorted(set(rowmul(idx) for (b_, idx) in written if b_ == buf and rowmul(idx) is not None))
                 inv.append('%s    %s.len() == %s@.len(),   // [%s] stage.%s_%s_len' % (ind, S, buf, tag, buf, m.group(2)))
-                for r_ in (rows if not (buf == 'cont') else [r for r in rows if r < 2]):
+                for r_ in (rows if not (SKIP_HIGH_ROWS and buf == 'cont') else [r for r in rows if r < 2]):
                     inv.append('%s    forall|k: int| %d * n + i <= k < %d * n ==> #[trigger] %s@[k] == %s[k],   // [%s] stage.%s_%s_row%d_pending' % (ind, r_, r_ + 1, buf, S, tag, buf, m.group(2), r_))
             for buf in sorted(set(b_ for (b_, _) in written)):
                 rows = sorted(set(rowmul(idx) for (b_, idx) in written if b_ == buf and rowmul(idx) is not None))
